@@ -46,6 +46,24 @@ reg("C10",
     outside=_OUT,
     )
 
+# slot-store growth under a RUNNING map: 6th configuration field PRE = keys preloaded in cycle 0 (and all updated again in the last source cycle)
+_GQUICK = "{2,0,3,0,14,8},{1,0,4,0,78,8},{1,0,3,0,2,16}"
+_GTHOROUGH = "{3,0,3,0,6,8},{2,0,4,0,78,8},{2,0,3,0,10,16},{1,3,3,0,14,7}"
+reg("C10",
+    name="C10_grow", src=_SRC, anchor_files=_ANCH,
+    quick=dict(defs=dict(CONFIGS=_GQUICK), symx=dict(shards=16, **{"max-wall": 900, "query-timeout-ms": 120000})),
+    thorough=dict(defs=dict(CONFIGS=_GTHOROUGH), symx=dict(shards=16, **{"max-wall": 3000, "shard-depth": 8, "query-timeout-ms": 120000})),
+    reach=["end", "ninth_key_added_after_first_evaluation", "seventeenth_key_added_after_first_evaluation", "key_added_after_growth_ticks_in_later_cycle",
+           "key_added_after_growth_removed", "key_added_after_growth_removed_and_added_again", "old_keys_tick_after_growth", "self_scheduled_wakeup",
+           "child_timer_armed_in_start_not_due_at_creation"],
+    bounds="same harness source and oracle as C10_map with configurations {NKEYS, BULK, NCYC, EXTRA_OPS, FMASK, PRE}: quick " + _GQUICK + "; thorough " + _GTHOROUGH +
+           ": PRE (8 / 16 = the slot store's capacity steps) further keys are all added in cycle 0 and all updated again in the last source cycle, so the NKEYS "
+           "individually scripted keys {nothing, set, remove, erase+set per cycle} are the 9th.. / 17th.. simultaneously held keys and arrive in the first "
+           "evaluation of the map or in any later cycle (key-slot store growing 8 -> 16 -> 32 under a running map), tick in later cycles in the new slots, are "
+           "removed and added again; the preloaded keys tick after the growth (their instances must have survived it); " + _FUNCS,
+    outside=_OUT + "; growth combined with phantom keys / a broadcast argument / several multiplexed dictionaries; more keys / cycles",
+    )
+
 _TQUICK = "{2,0,3,127},{1,3,3,67}"
 _TTHOROUGH = "{2,0,4,127},{3,0,3,67},{1,6,3,127}"
 reg("C10",
